@@ -6,6 +6,13 @@ props = [json.loads(l) for l in open(os.path.join(V, "properties.jsonl"))]
 
 TECH = "Rocq proof over an executable Gallina model + model/implementation correspondence"
 CLAIMS = {
+ "C05": ("proof", "Rocq theorems decided by kernel computation over tables translated from /repo on every run: the learned lexer tables are tries; on the whole vocabulary (every unit name and alias alone and crossed with every prefix spelling, 9.7k words) every accepted word whose lexer path is clean is read as one of its valid prefix+name splits; every documented name parses alone to its documented unit; every unit word of a hand-written reference table (SI Brochure, 1959 yard-pound agreement, NIST HB 44) denotes a unit with the reference dimensions and an accepted exact value, except three recorded findings which provably match none; the reference covers all derived units.",
+         "Trusted: Coq kernel + vm_compute; translator incl. the lexer tables LEARNED from the real logos lexers through a hook; the reference table; correspondence on the vocabulary, random concatenations and random bytes. Unit-expression structure (juxtaposition, *, /, ^n) is decided by correspondence and an independent Python reading. Known findings: logos not maximal munch; Dalton, pint, fathom values (KNOWN_FINDINGS.txt)."),
+ "C11": ("proof", "PARTIAL. Rocq theorems for every tree / every string: the lexer is total and lossless; the evaluator stays within its fuel and can only panic through Compound::new's debug assertion (never in a release build of the model); eval::unit and round never panic; every error a query reports has a span inside [0, byte length] running between node boundaries. Everything the model cannot express (tantivy query parser, codespan, num, allocator, stack) is exercised by running debug and release builds under catch_unwind and the real binary on generated token soups, mutated queries and quantity expressions.",
+         "Trusted: Coq kernel + vm_compute; hand-written model; correspondence in both build modes. Not proved: parse totality and the non-zero-power invariant of products (observed on every input). Inputs are kept inside the property's bounds (exponents <= 3 digits, powers <= 2 digits, no power towers)."),
+ "C19": ("proof", "Rocq model of what bin/any.rs prints per result on top of the pipeline model, with theorems on its logic (one item per result in order, errors do not abort; the exact form is the fraction in lowest terms with the slash iff the denominator is not one; space iff the unit has a numerator part); the decisive tie is the line-by-line comparison of the real binary's stdout with the model's rendering and with an independent rendering from the library's results.",
+         "Trusted: Coq kernel + vm_compute; hand-written model; the real `any` binary built from /repo with a private on-disk database; codespan's diagnostic block is opaque apart from message, position and width."),
+
  "C17": ("proof", "Rocq theorems: the CBOR subset serde_cbor uses decodes back to the encoded value for every value (fuel = bytes + 1 always suffices); u32-digit vectors, big integers, rationals, i32 states, units, unit expressions and constants round-trip through the serde encodings of the model; derived-unit identifiers (translated from generated/ids.rs) are pairwise distinct and decode to the same unit; every shipped constant's value and unit round-trip through the bytes (by kernel computation over the translated data).",
          "Trusted: Coq kernel + vm_compute; translator (its CBOR reading of db/*.bin.gz is cross-checked against serde's); hand-written codec model validated byte for byte against serde_cbor::to_vec / from_slice and serde_json on all shipped values, random 1000-bit rationals and random compounds. JSON decoding is checked on the implementation only."),
  "C18": ("proof", "Rocq theorems over the evaluator model with an arbitrary fact database: same value with and without descriptions from any starting list; nothing recorded when off; with the switch evaluation only appends, in evaluation order, phrases for which the database returned a constant; the roots of a query list evaluated against one database have the values they have in isolation. By simulation between the two runs through every node kind and both loops.",
